@@ -500,8 +500,15 @@ def rule_RO(ctx):
                'rotation returns np.array([...])')
     az, el = sp.symbols('az el', real=True)
     rp = au.params(rot)
-    tr = find('_c_, _s_ = (np.cos, np.sin)', rot)
-    td = find('_c_, _s_ = (sp.special.cosdg, sp.special.sindg)', rot)
+    def pair(cf, sf):
+        c_ = find(f'_c_ = {cf}', rot)
+        s_ = find(f'_s_ = {sf}', rot)
+        if len(c_) == 1 and len(s_) == 1:
+            return [(c_[0][0], {'_c_': c_[0][1]['_c_'],
+                                '_s_': s_[0][1]['_s_']})]
+        return []
+    tr = pair('np.cos', 'np.sin')
+    td = pair('sp.special.cosdg', 'sp.special.sindg')
     ctx.check('C09.RO.formula', 'rotation: degree / radian functions',
               len(tr) == 1 and len(td) == 1 and tr[0][1] == td[0][1],
               'cos/sin are not bound to (cosdg, sindg) / (np.cos, np.sin)',
